@@ -138,3 +138,148 @@ Proof.
   exists 2. split; [vm_compute; tauto|]. split; [vm_compute; reflexivity|].
   vm_compute. intros [H|[]]; discriminate.
 Qed.
+
+(* ------------------------------------------------------------------ *)
+(* Seeded changes C11-1 / C11-2: the flusher does NOT clear [guarded] in the critical section in
+   which it decides to quit (shallQuit only reports inflight = 0); guarded is cleared by a later,
+   separate lock section — right after ticker.Stop() returns (C11-1: deferred unguard()) or after
+   the deferred Flush (C11-2).  An Add that reaches the threshold between the decision and that
+   later section still sees guarded = true, starts no flusher and hands its batch to a commander
+   channel that nobody reads any more. *)
+
+Definition quit_keep_guard (cfg : config) (s : state) (b : nat) (last : Z) : option state :=
+  if now s - last <=? interval cfg * idleRound then Some (set_fl s (upd (fl s) b (BSelect false last)))
+  else if inflight s =? 0 then Some (set_fl s (upd (fl s) b BStop))      (* guarded stays true *)
+  else Some (set_fl s (upd (fl s) b (BSelect false last))).
+
+(* C11-1: ticker.Stop() returns, then the deferred unguard() (one lock section), then the deferred Flush *)
+Definition late1_bstep (cfg : config) (s : state) (b : nat) (alt : bool) : option state :=
+  match nth_error (fl s) b with
+  | Some (BQuit last) => quit_keep_guard cfg s b last
+  | Some BStop => Some (set_fl (set_guarded s false) (upd (fl s) b (BExit FEnter)))
+  | _ => bstep cfg s b alt
+  end.
+
+(* C11-2: guarded is cleared after the deferred Flush has returned *)
+Definition late2_bstep (cfg : config) (s : state) (b : nat) (alt : bool) : option state :=
+  match nth_error (fl s) b with
+  | Some (BQuit last) => quit_keep_guard cfg s b last
+  | Some (BExit (FDone ok)) =>
+    Some (set_fl (set_guarded (set_wg s (wg s - 1)) false) (upd (fl s) b BDead))
+  | _ => bstep cfg s b alt
+  end.
+
+Section Variant.
+Variable bs : config -> state -> nat -> bool -> option state.
+Definition vstep (cfg : config) (s : state) (e : ev) : option state :=
+  match e with
+  | EvB b alt => bs cfg s b alt
+  | _ => step cfg s e
+  end.
+Definition vexec (cfg : config) (s : state) (e : ev) : state :=
+  match vstep cfg s e with Some s' => s' | None => s end.
+Definition vrun (cfg : config) (s : state) (sched : list ev) : state :=
+  fold_left (vexec cfg) sched s.
+End Variant.
+
+(* Add 1 starts the flusher; a tick flushes [1]; more than idleRound intervals later a tick finds
+   nothing to flush and the flusher decides to quit (it is inside ticker.Stop(), guarded still
+   true); client 1 adds 2 (returns) and 3 (threshold: [2;3] goes to the commander channel, the
+   client waits for the confirmation); the flusher finishes its exit. *)
+Definition late_sched : list ev :=
+  [EvCall 0 (CAdd 1 1); EvC 0; EvB 0 false;
+   EvTick; EvB 0 true; EvB 0 false; EvB 0 false; EvB 0 false; EvB 0 false;
+   EvClock 20000; EvTick; EvB 0 true; EvB 0 false; EvB 0 false; EvB 0 false; EvB 0 false;
+   EvB 0 false;                                           (* the quit decision *)
+   EvCall 1 (CAdd 2 1); EvC 1;
+   EvCall 1 (CAdd 3 1); EvC 1; EvC 1;
+   EvB 0 false; EvB 0 false; EvB 0 false; EvB 0 false; EvB 0 false].
+
+(* where both variants end up (t: the clock) *)
+Definition stranded (t : Z) : state :=
+  mkSt [] 0 (Some [2; 3]) 1 false 0 false false t [CIdle; CAddConfirm] [BDead] [[1]] [] [1; 2; 3].
+
+Definition not_call (e : ev) : Prop := forall c k, e <> EvCall c k.
+
+Lemma stranded_frozen bs : bs = late1_bstep \/ bs = late2_bstep ->
+  forall t e, not_call e -> exists t', vexec bs cfg2 (stranded t) e = stranded t'.
+Proof.
+  intros Hbs t e Hnc. destruct e as [c k|c|b alt| |d].
+  - exfalso. exact (Hnc c k eq_refl).
+  - exists t. destruct c as [|[|[|c]]]; reflexivity.
+  - exists t. destruct Hbs as [-> | ->]; destruct b as [|[|b]]; reflexivity.
+  - exists t. reflexivity.
+  - unfold vexec, vstep, step. destruct (0 <=? d); [exists (t + d) | exists t]; reflexivity.
+Qed.
+
+Lemma stranded_forever bs : bs = late1_bstep \/ bs = late2_bstep ->
+  forall mid t, Forall not_call mid -> exists t', vrun bs cfg2 (stranded t) mid = stranded t'.
+Proof.
+  intros Hbs mid. induction mid as [|e mid IH]; intros t Hf; [exists t; reflexivity|].
+  inversion Hf as [|? ? He Hf']; subst.
+  destruct (stranded_frozen bs Hbs t e He) as [t1 H1].
+  destruct (IH t1 Hf') as [t2 H2]. exists t2. cbn [vrun fold_left]. fold (vrun bs cfg2). rewrite H1. exact H2.
+Qed.
+
+(* With either variant: tasks 2 and 3 were accepted (the Add of 2 has returned), no flusher is
+   alive, guarded is false, the batch [2;3] sits in the commander channel and — whatever happens
+   afterwards short of a new call (ticks, clock, any thread's actions) — it is never executed and
+   the Add of 3 never returns.  In particular [restart_safe] and the drain of the correspondence
+   run fail for these variants. *)
+Theorem late_unguard_refuted : forall bs, bs = late1_bstep \/ bs = late2_bstep ->
+  exists sched,
+    let s := vrun bs cfg2 (init 2) sched in
+    guarded s = false /\ cmd s = Some [2; 3] /\ inflight s = 1 /\ fl s = [BDead] /\
+    In 2 (accepted s) /\ In 3 (accepted s) /\
+    forall mid, Forall not_call mid ->
+      let s' := vrun bs cfg2 s mid in
+      nth_error (cl s') 1%nat = Some CAddConfirm /\ cmd s' = Some [2; 3] /\
+      ~ In 2 (done_tasks s') /\ ~ In 3 (done_tasks s').
+Proof.
+  intros bs Hbs. exists late_sched.
+  assert (Hs : vrun bs cfg2 (init 2) late_sched = stranded 1020000)
+    by (destruct Hbs as [-> | ->]; vm_compute; reflexivity).
+  cbv zeta. rewrite Hs. repeat split; try reflexivity; try (cbn; tauto).
+  all: destruct (stranded_forever bs Hbs mid 1020000 H) as [t' ->]; cbn; try reflexivity.
+  all: intros [Hx|[]]; discriminate.
+Qed.
+
+(* the real protocol on the same schedule: the Add of 3 finds guarded = false (cleared together
+   with the quit decision), starts a second flusher, which takes the batch *)
+Example late_sched_real_protocol :
+  let s := run cfg2 (init 2) (late_sched ++ [EvB 1 false; EvB 1 false; EvB 1 false; EvB 1 false; EvC 1; EvB 1 false]) in
+  guarded s = true /\ cmd s = None /\ nth_error (cl s) 1%nat = Some CIdle /\ executed s = [[1]; [2; 3]].
+Proof. vm_compute. repeat split; reflexivity. Qed.
+
+(* ------------------------------------------------------------------ *)
+(* Seeded change C11-3: bulkContainer.RemoveAll keeps two buffers and swaps them ("one batch is
+   collected while the previous one is executed"): the removed batch becomes the spare, the
+   previous spare, cut to length 0, becomes the collecting slice; empty removals do nothing. *)
+Definition swap_step (gr : nat -> nat) (st : bufc) (o : bop) : bufc :=
+  match o with
+  | BAdd _ => buf_step gr st o
+  | BRemoveAll =>
+    match b_cur st with
+    | Some sl =>
+      match sl_len sl with
+      | O => st
+      | _ => mkBuf (b_heap st)
+                   (match b_spare st with Some sp => Some (mkSl (sl_arr sp) 0) | None => None end)
+                   (Some sl) (b_out st ++ [sl])
+      end
+    | None => st
+    end
+  end.
+Definition swap_run (gr : nat -> nat) (st : bufc) (ops : list bop) : bufc := fold_left (swap_step gr) ops st.
+
+(* a batch that is still in the hands of its callback is overwritten by a later Add, as soon as
+   two more removals have happened: [batch_content_stable] fails for this variant *)
+Theorem buffer_swap_refuted : forall gr,
+  exists ops1 ops2 sl,
+    let st1 := swap_run gr buf_init ops1 in
+    let st2 := swap_run gr st1 ops2 in
+    In sl (b_out st1) /\ view (b_heap st1) sl = [1] /\ view (b_heap st2) sl = [3].
+Proof.
+  intros gr. exists [BAdd 1; BRemoveAll], [BAdd 2; BRemoveAll; BAdd 3], (mkSl 0 1).
+  cbv zeta. split; [left; reflexivity|]. split; reflexivity.
+Qed.
